@@ -33,14 +33,15 @@ Definition res_matches (r : res) (k v : Z) : bool :=
   | RUnmodelled => k =? 1          (* needs math.Exp/Log: only the kind is compared *)
   end.
 
+(* round trip of the bit-pattern encoding itself, checked on every float operand the driver sends *)
+Definition chk_bits (b : Z) : bool :=
+  bits_of_f (f_of_bits b) =? (if ((b / 2 ^ 52) mod 2 ^ 11 =? 2047) && negb (b mod 2 ^ 52 =? 0) then canonical_nan_bits else b).
+
 (* case = (opcode, args, observed kind, observed value) *)
 Definition chk (c : Z * list (Z * Z) * Z * Z) : bool :=
   let '(opc, args, k, v) := c in
+  forallb (fun a : Z * Z => if fst a =? 1 then chk_bits (snd a) else in64 (snd a)) args &&
   match eval_case opc args with
   | Some r => res_matches r k v
   | None => false
   end.
-
-(* round trip of the bit-pattern encoding itself, checked on every float operand the driver sends *)
-Definition chk_bits (b : Z) : bool :=
-  bits_of_f (f_of_bits b) =? (if ((b / 2 ^ 52) mod 2 ^ 11 =? 2047) && negb (b mod 2 ^ 52 =? 0) then canonical_nan_bits else b).
